@@ -85,12 +85,12 @@ def random_script(r, e_is_client, tp, n_ops):
                 if script[-1][0] == "md":
                     md = (1 << 62) - 1
                 continue
-            md += r.choice([0, 1, 1, 2, 3, 10])
+            md = min(md + r.choice([0, 1, 1, 2, 3, 10]), (1 << 62) - 1)
             script.append(("md", md if r.random() < 0.9 else max(0, md - r.randrange(5))))
         elif x < 0.68:
             sid = r.choice(mine + opened_theirs)
             init = tp["uni"] if sid & 2 else tp["bidi_remote"] if sid in mine else tp["bidi_local"]
-            msd[sid] = msd.get(sid, init) + r.choice([0, 1, 1, 2, 5])
+            msd[sid] = min(msd.get(sid, init) + r.choice([0, 1, 1, 2, 5]), (1 << 62) - 1)
             script.append(("msd", sid, msd[sid] if r.random() < 0.9 else max(0, msd[sid] - r.randrange(4))))
         elif x < 0.74:
             u = r.choice([0, 0, 1])
